@@ -60,7 +60,7 @@ fn alt<S: PS>(acc: &mut Acc, pk: &S::Pk, pk_b: &[u8], class: &str, m: &[u8], cx:
 
 fn run_set<S: PS>(ctx: &Ctx) -> Acc {
     let p = S::p();
-    let n_jobs = ctx.budget(12, 96) as usize;
+    let n_jobs = ctx.budget(12, 480) as usize;
     let accs = par_map(n_jobs, |ji| {
         let mut acc = Acc::new();
         let mut g = Prng::derive(ctx.seed, &format!("c06-{}", p.name), ji as u64);
